@@ -29,6 +29,10 @@ def run(ctx):
     r3(ctx)
     r4(ctx)
     r5(ctx)
+    from . import c07
+    from .common import reuse
+
+    reuse(ctx, "C08.R6", [c07.r2, c07.r3], "a heartbeat reset really re-establishes the connection (C07.R2 reset = disconnect + reconnect and cannot raise, C07.R3 failed attempts are retried)")
 
 
 def r1(ctx):
